@@ -278,7 +278,9 @@ def rejection_sample_helper(
 
         with tb.open_file(prior_samples_file, mode="r") as f:
             data = f.root[JokerSamples._hdf5_path]
-            samples["ln_prior"] = data.read_coordinates(full_samples_idx)
+            samples["ln_prior"] = data.read_coordinates(
+                full_samples_idx, field="ln_prior"
+            )
 
     if return_all_logprobs:
         return samples, lls
